@@ -312,6 +312,20 @@ def snaprace_scenarios():
             st += catchup + ops(["w7"]) + catchup
             out.append({"name": "snapolder-%s%s" % (when, "-crash" if crash else ""), "family": "snap", "voters": ["a", "b", "c"],
                         "controlled": True, "auto": False, "heal": True, "heal_et": 60, "snap_pad": 100, "stimuli": st})
+    # three installations overlapping (S23): requests for three successive snapshots are handled
+    # while the first restore is in progress; whichever waiter wakes first, the node must end at
+    # the newest.  Several repetitions: the order in which the waiters wake is not the scheduler's.
+    for rep in range(6):
+        st = [{"op": "nolimit"}] + E + ops(["w1", "w2"]) + [{"op": "snapnow", "n": "a"}] + ops(["w3"]) + [{"op": "hb", "n": "a"}]
+        st += ops(["w4"]) + [{"op": "snapnow", "n": "a"}] + ops(["w5"]) + [{"op": "hb", "n": "a"}]
+        st += ops(["w6"]) + [{"op": "snapnow", "n": "a"}] + ops(["w7"]) + [{"op": "hb", "n": "a"}]
+        st += [{"op": "gate", "n": "c", "w": "restore"}]
+        st += [{"op": "deliver", "kind": "is", "from": "a", "to": "c", "sel": "first", "off0": True} for k in range(3)]   # oldest first: all three pass the "nothing new" check
+        st += [{"op": "release", "n": "c", "w": "restore"}, {"op": "adv", "d": 10}]
+        st += [{"op": "reply", "kind": "is", "from": "a", "to": "c"} for k in range(3)]
+        st += catchup + ops(["w8"]) + catchup
+        out.append({"name": "snapthree-%d" % rep, "family": "snap", "voters": ["a", "b", "c"],
+                    "controlled": True, "auto": False, "heal": True, "heal_et": 60, "snap_pad": 100, "stimuli": st})
     return out
 
 
@@ -451,7 +465,8 @@ def gen_spec_behaviours(cfgname, workdir, num, depth, seed, voters, extra=()):
         if len(h) < 4:
             continue
         scs.append({"name": "sim-%s-%d-%d" % (cfgname, seed, i), "family": "sim", "voters": voters, "extra": list(extra), "controlled": True,
-                    "auto": False, "heal": True, "heal_et": 60, "spec": h, **({"snap_window": True} if "snapwin" in cfgname else {})})
+                    "auto": False, "heal": True, "heal_et": 60, "spec": h, **({"snap_window": True} if "snapwin" in cfgname else {}),
+                    **({"snap_pad": 40000} if "snapasync" in cfgname else {})})   # SnapSize = 2: payload beyond one transfer chunk
     shutil.rmtree(os.path.join(d, "md"), ignore_errors=True)
     return scs
 
@@ -557,7 +572,7 @@ PROPS = {
     "C09": dict(fams=[("member", 3), ("member5", 3)], corpus=["member"], mc="MC_member3", mc_deep="MC_member3_deep", monitor_props=["C01", "C02", "C07", "C09", "C05"],
                 gen=[("Gen_member4", ["a", "b"], 45, ["c", "d"])]),
     "C10": dict(fams=[("snap", 6)], corpus=["snap"], mc="MC_snap3", mc_deep="MC_snapwin3", gen=[("Gen_snap3", ["a", "b", "c"], 45), ("Gen_snapwin3", ["a", "b", "c"], 45)], snaprace=True),
-    "C11": dict(fams=[("snap", 6)], corpus=["snap"], mc="MC_snap3", mc_deep="MC_snap3_deep", gen=[("Gen_snap3", ["a", "b", "c"], 45)], snaprace=True),
+    "C11": dict(fams=[("snap", 6)], corpus=["snap"], mc="MC_snapasync3", mc_deep="MC_snap3_deep", gen=[("Gen_snap3", ["a", "b", "c"], 45), ("Gen_snapasync3", ["a", "b", "c"], 45)], snaprace=True),
     "C12": dict(storage=True),
     "C13": dict(storage=True),
     "C15": dict(fams=[("core", 2), ("crash", 2), ("snap", 2), ("member5", 2)], corpus=["core", "crash", "snap", "member"], mc="MC_heal", mc_deep="MC_heal_deep", mc_module="Heal", healstates=True),
